@@ -7,8 +7,8 @@
 #else
 #include "lowered.c"
 #endif
-typedef struct IteratorReader_char_p IR;
-typedef struct Reader_char_p_void RR;
+typedef struct IteratorReader_constchar_p IR;
+typedef struct Reader_constchar_p_void RR;
 
 /* ---- IteratorReader::read: the byte at ptr_ (as unsigned) and advance, or -1 at the end; never touches *end_ ---- */
 void h_iterator_read(void) {
@@ -19,8 +19,8 @@ void h_iterator_read(void) {
   size_t pos = in_u8();
   __CPROVER_assume(pos <= n);
   IR r;
-  IteratorReader_char_p__ctor__char_p_char_p(&r, buf + pos, buf + n);
-  int c = IteratorReader_char_p__read(&r);
+  IteratorReader_constchar_p__ctor__char_p_char_p(&r, buf + pos, buf + n);
+  int c = IteratorReader_constchar_p__read(&r);
   COVER(pos < n); COVER(pos == n); COVER(pos < n && buf[pos] < 0);
   if (pos < n) {
 #ifdef CANARY_ITREAD
@@ -44,9 +44,9 @@ void h_iterator_readBytes(void) {
   size_t pos = in_u8();
   __CPROVER_assume(pos <= n);
   IR r, q;
-  IteratorReader_char_p__ctor__char_p_char_p(&r, buf + pos, buf + n);
-  IteratorReader_char_p__ctor__char_p_char_p(&q, buf + pos, buf + n);
-  size_t got = IteratorReader_char_p__readBytes(&r, out, len);
+  IteratorReader_constchar_p__ctor__char_p_char_p(&r, buf + pos, buf + n);
+  IteratorReader_constchar_p__ctor__char_p_char_p(&q, buf + pos, buf + n);
+  size_t got = IteratorReader_constchar_p__readBytes(&r, out, len);
   size_t want = (n - pos) < len ? (n - pos) : len;
   COVER(got < len); COVER(got == len && len > 0); COVER(len == 0);
 #ifdef CANARY_ITREADBYTES
@@ -56,7 +56,7 @@ void h_iterator_readBytes(void) {
 #endif
   CHECK(r.ptr_ == buf + pos + want, "and advances by that many bytes");
   for (size_t i = 0; i < 4; i++) if (i < want) {
-    int c = IteratorReader_char_p__read(&q);
+    int c = IteratorReader_constchar_p__read(&q);
     CHECK(c == (int)(unsigned char)out[i], "C03: block-wise and byte-wise delivery give the same bytes (source independence)");
   }
 }
@@ -65,8 +65,8 @@ void h_bounded_ctor(void) {
   size_t n = in_u8() % 9;
   char *buf = malloc(n ? n : 1); /* (a null base pointer with offset 0 is flagged by cbmc; real callers pass non-null) */
   __CPROVER_assume(buf != 0);
-  struct BoundedReader_char_p_void b;
-  BoundedReader_char_p_void__ctor__void_p_ulong(&b, buf, n);
+  struct BoundedReader_constchar_p_void b;
+  BoundedReader_constchar_p_void__ctor__void_p_ulong(&b, buf, n);
   IR *it = (IR *)&b;
   COVER(n == 0); COVER(n > 0);
 #ifdef CANARY_BOUNDED
@@ -84,13 +84,13 @@ void h_ram_vs_iterator(void) {
   for (size_t i = 0; i < 3; i++) if (i < n) { buf[i] = in_char(); __CPROVER_assume(buf[i] != 0); }
   buf[n] = 0;
   RR ram;
-  Reader_char_p_void__ctor__void_p(&ram, buf);
+  Reader_constchar_p_void__ctor__void_p(&ram, buf);
   IR it;
-  IteratorReader_char_p__ctor__char_p_char_p(&it, buf, buf + n);
+  IteratorReader_constchar_p__ctor__char_p_char_p(&it, buf, buf + n);
   COVER(n == 3);
   for (size_t i = 0; i < 4; i++) if (i <= n) {
-    int a = Reader_char_p_void__read__void(&ram);
-    int b = IteratorReader_char_p__read(&it);
+    int a = Reader_constchar_p_void__read(&ram);
+    int b = IteratorReader_constchar_p__read(&it);
     if (i < n) {
 #ifdef CANARY_RAMIT
       CHECK(a == b && a != 'q', "C03: pointer and pointer+size inputs deliver the same bytes");
@@ -104,8 +104,8 @@ void h_ram_vs_iterator(void) {
 /* null pointer: Reader<const char*>(nullptr) reads the empty string */
 void h_ram_null(void) {
   RR ram;
-  Reader_char_p_void__ctor__void_p(&ram, 0);
-  int a = Reader_char_p_void__read__void(&ram);
+  Reader_constchar_p_void__ctor__void_p(&ram, 0);
+  int a = Reader_constchar_p_void__read(&ram);
   COVER(1);
 #ifdef CANARY_RAMNULL
   CHECK(a == 1, "a null input pointer behaves as the empty input");
